@@ -93,6 +93,25 @@ def inv_of(mk, isse, d, X):
     return mk(X).inv()
 
 
+def minv_of(cls, isse, d, mats):
+    """cls([X0, X1, ...], check=False).inv()  -- the MULTI-valued branch of inv(); 2-D: shadow valuation of exact group
+    elements for every value (the checking constructor), as in inv_of"""
+    mats = list(mats)
+    if d == 2 and isinstance(np.asarray(mats[0]).flatten()[0], sympy.Expr):
+        concolic.VAL.clear()
+        concolic.PATH.clear()
+        R = sympy.Rational
+        rots = [(R(3, 5), R(4, 5)), (R(5, 13), R(-12, 13)), (R(8, 17), R(15, 17))]
+        for k, X in enumerate(mats):
+            c, s_ = rots[k % 3]
+            vals = [c, -s_, R(1, 3) + k, s_, c, R(1, 7) - k, 0, 0, 1] if isse else [c, -s_, s_, c]
+            for sym, v_ in zip(np.asarray(X, dtype=object).flatten(), vals):
+                concolic.VAL[sym] = v_
+        with concolic.object_alloc():
+            return cls(mats, check=False).inv()
+    return cls(mats, check=False).inv()
+
+
 def unit_q_sampler(shapes):
     def s(rng):
         out = [rand_unit(rng, 4)]
@@ -149,6 +168,16 @@ def build(ctx):
         if isse:
             g.trace(f'tr_{cn}_inv', [('X', M)], (lambda mk, isse, d: lambda X: inv_of(mk, isse, d, X).A)(mk, isse, d),
                     sampler=(lambda cn: lambda rng: rand_pose_mats(rng, cn, 1, 0.1, 10))(cn), note=note2)
+        # multi-valued inverse (a separate branch of inv()): column k of X.inv() * v for a two-valued X
+        smp2 = (lambda cn, d: lambda rng: rand_pose_mats(rng, cn, 2, 0.1, 10) + [rng.normal(size=d)])(cn, d)
+        for k in range(2):
+            if cn == 'SE2':
+                # SE2.inv iterates `for x in self`, whose __getitem__ re-validates each symbolic element with a checking
+                # constructor that the tracer cannot get through; the multi-valued SE2 inverse is covered by the oracle only
+                break
+            g.trace(f'tr_{cn}_minv2_c{k}', [('X0', M), ('X1', M), ('v', V)],
+                    (lambda cls, isse, d, k: lambda X0, X1, v: (minv_of(cls, isse, d, [X0, X1]) * v)[:, k])(cls, isse, d, k),
+                    sampler=smp2, note=note2)
     # ---- homogeneous-coordinate function route
     g.trace('tr_homtrans3', [('X', 'M44'), ('v', 'V3')], base.homtrans)
     g.trace('tr_homtrans2', [('X', 'M33'), ('v', 'V2')], base.homtrans)
@@ -489,6 +518,117 @@ def oracle(ctx):
         ctx.sample({'kind': 'oracle', 'law': 'SE3:compose', 'X': last[0].tolist(), 'P': last[1].tolist()})
 
 
+def ref_inv(cn, M):
+    """independent structured inverse [R', -R' t] (R' for SO(n))"""
+    cls, d, isse = CLASSES[cn]
+    if not isse:
+        return M.T.copy()
+    Ti = np.eye(d + 1)
+    Ti[:d, :d] = M[:d, :d].T
+    Ti[:d, d] = -M[:d, :d].T @ M[:d, d]
+    return Ti
+
+
+def oracle_multi(ctx):
+    """the laws for MULTI-valued poses (lengths 2..5, every class, generic rotation AND translation together), element
+    by element and through every way of inverting: inv(), /, ** -1.  The multi-valued branches of inv(), _op2 and
+    __pow__ are separate code paths from the single-valued ones."""
+    rng = ctx.rng
+    N = ctx.n(40, 1500)
+
+    def chk(key, lhs, rhs, scale, rep, tol=REL):
+        lhs, rhs = np.asarray(lhs, float), np.asarray(rhs, float)
+        ctx.count('oracle:' + key)
+        if lhs.size == rhs.size and lhs.shape != rhs.shape:
+            lhs = lhs.reshape(rhs.shape)
+        err = float(np.max(np.abs(lhs - rhs))) if lhs.shape == rhs.shape else float('inf')
+        rel = err / scale if scale > 0 else err
+        if not err <= tol * scale:
+            ctx.fail('oracle:' + key, f"law {key} fails on the implementation: |lhs-rhs|={err:g}, data magnitude {scale:g} (shapes {lhs.shape} vs {rhs.shape})",
+                     dict(rep, law=key, lhs=lhs.tolist(), rhs=rhs.tolist()))
+            return False
+        ctx.stats['worst:' + key] = max(ctx.stats.get('worst:' + key, 0.0), rel)
+        return True
+
+    def one(it, cn, cls, d, isse, L):
+        # generic rotations (angle away from 0) together with non-zero translations; magnitudes 1e-6..1e6 every third case
+        tm = log_uniform(rng, 1e-6, 1e6) if it % 3 == 0 else log_uniform(rng, 0.1, 10)
+        pm = log_uniform(rng, 1e-6, 1e6) if it % 3 == 0 else log_uniform(rng, 0.1, 10)
+        Xm = [generic_pose(rng, cn, tm) for _ in range(L)]
+        Ym = [generic_pose(rng, cn, tm) for _ in range(L)]
+        p = rng.normal(size=d) * pm
+        X, Y, Y1 = make_pose(cn, Xm), make_pose(cn, Ym), make_pose(cn, Ym[:1])
+        tX = max(float(np.linalg.norm(m[:d, d])) if isse else 0.0 for m in Xm + Ym)
+        sc = max(float(np.linalg.norm(p)), tX, 1e-300)
+        rep = {'class': cn, 'len': L, 'X_hex': [hexl(m) for m in Xm], 'Y_hex': [hexl(m) for m in Ym], 'p_hex': hexl(p)}
+        ctx.case(('oracle-multi', cn, L, it, tuple(p)))
+        key = f'multi:{cn}'
+        Xp_ref = np.column_stack([ref_apply(cn, m, p) for m in Xm])
+        Xp = np.asarray(X * p, float)
+        chk(f'{key}:point-is-Rp+t', Xp, Xp_ref, sc, rep)
+        # ---- inverse, three ways, element by element: value i of the inverse undoes value i
+        ways = {'inv()': lambda: X.inv(), 'pow(-1)': lambda: X ** -1, 'identity/X': lambda: make_pose(cn, [np.eye(d + 1 if isse else d)]) / X}
+        for wname, mkinv in ways.items():
+            try:
+                Xi = mkinv()
+            except Exception as ex:  # noqa
+                ctx.fail(f'oracle:{key}:inverse:{wname}:raises-{type(ex).__name__}', f"{cn} of length {L}: {wname} raises {type(ex).__name__}: {ex}", rep)
+                continue
+            if len(Xi) != L:
+                ctx.fail(f'oracle:{key}:inverse:{wname}:length', f"{cn} of length {L}: {wname} holds {len(Xi)} values", rep)
+                continue
+            tol = REL
+            mats_ref = np.array([ref_inv(cn, m) for m in Xm])
+            chk(f'{key}:inverse:{wname}:matrix', np.array([x.A for x in Xi]), mats_ref, max(1.0, tX), rep, tol=tol)
+            back = np.column_stack([np.asarray(Xi[i] * Xp_ref[:, i], float).flatten() for i in range(L)])
+            chk(f'{key}:inverse:{wname}:elementwise', back, np.tile(p.reshape(d, 1), (1, L)), sc, rep, tol=tol)
+            # (X.inv() * X) * p : L copies of p
+            chk(f'{key}:inverse:{wname}:(Xinv*X)*p', (Xi * X) * p, np.tile(p.reshape(d, 1), (1, L)), sc, rep, tol=tol)
+            chk(f'{key}:inverse:{wname}:(X*Xinv)*p', (X * Xi) * p, np.tile(p.reshape(d, 1), (1, L)), sc, rep, tol=tol)
+        # (X / X) * p and (Y / X)[i] * (X[i] * p) == Y[i] * p
+        chk(f'{key}:div:(X/X)*p', (X / X) * p, np.tile(p.reshape(d, 1), (1, L)), sc, rep)
+        YX = Y / X
+        chk(f'{key}:div:(Y/X)[i]*(X[i]*p)', np.column_stack([np.asarray(YX[i] * Xp_ref[:, i], float).flatten() for i in range(L)]),
+            np.column_stack([ref_apply(cn, m, p) for m in Ym]), sc, rep)
+        # ---- composition: the four length combinations, against the reference and against X*(Y*p) element by element
+        XYp_ref = np.column_stack([ref_apply(cn, Xm[i], ref_apply(cn, Ym[i], p)) for i in range(L)])
+        chk(f'{key}:compose:MxM', (X * Y) * p, XYp_ref, sc, rep)
+        Yp = np.asarray(Y * p, float)
+        chk(f'{key}:compose:MxM:elementwise', (X * Y) * p, np.column_stack([np.asarray(X[i] * Yp[:, i], float).flatten() for i in range(L)]), sc, rep)
+        chk(f'{key}:compose:Mx1', (X * Y1) * p, np.column_stack([ref_apply(cn, Xm[i], ref_apply(cn, Ym[0], p)) for i in range(L)]), sc, rep)
+        chk(f'{key}:compose:1xM', (Y1 * X) * p, np.column_stack([ref_apply(cn, Ym[0], ref_apply(cn, Xm[i], p)) for i in range(L)]), sc, rep)
+        return Xm, p
+
+    last = None
+    for it in range(N):
+        for cn, (cls, d, isse) in CLASSES.items():
+            L = 2 + (it % 4)
+            try:
+                last = one(it, cn, cls, d, isse, L)
+            except Exception as ex:  # noqa
+                ctx.fail(f'oracle:multi:{cn}:raises-{type(ex).__name__}', f"evaluating the multi-valued laws for {cn} (length {L}) raises {type(ex).__name__}: {ex}",
+                         {'class': cn, 'len': L, 'iteration': it, 'seed': ctx.seed})
+    if last is not None:
+        ctx.sample({'kind': 'oracle-multi', 'law': 'multi:SE3:inverse', 'X': [m.tolist() for m in last[0]], 'p': last[1].tolist()})
+
+
+def generic_pose(rng, cn, tmag):
+    """group element with a generic rotation (angle in [0.3, pi-0.3], random axis) and a non-zero translation of magnitude tmag"""
+    cls, d, isse = CLASSES[cn]
+    th = rng.uniform(0.3, math.pi - 0.3) * rng.choice([-1.0, 1.0])
+    if d == 3:
+        from lib.gens import rot_from_axis_angle
+        R = rot_from_axis_angle(rand_unit(rng), th)
+    else:
+        R = np.array([[math.cos(th), -math.sin(th)], [math.sin(th), math.cos(th)]])
+    if not isse:
+        return R
+    T = np.eye(d + 1)
+    T[:d, :d] = R
+    T[:d, d] = rand_unit(rng, d) * tmag
+    return T
+
+
 def udq_route(ctx, Xm, p, want, tX, band, rep):
     """UnitDualQuaternion(SE3) * p against X * p; a failure is classified by root cause"""
     try:
@@ -546,6 +686,8 @@ def run(ctx):
         grid(ctx)
     with ctx.timed('oracle'):
         oracle(ctx)
+    with ctx.timed('oracle-multi'):
+        oracle_multi(ctx)
 
 
 def replay(ctx, path):
